@@ -114,6 +114,8 @@ where
         {
             Ok(())
         } else {
+            #[cfg(feature = "verif")]
+            crate::verif::probe("max_packet_size_refused");
             Err(MaximumPacketSizeExceeded.into())
         }
     }
@@ -152,6 +154,8 @@ where
 
                 if packet_id == PublishTx::PACKET_ID {
                     if connection.send_quota == 0 {
+                        #[cfg(feature = "verif")]
+                        crate::verif::probe("send_quota_exhausted");
                         let _ = msg.response_channel.send(Err(QuotaExceeded.into()));
                         return Ok(false);
                     }
@@ -243,6 +247,10 @@ where
                 let is_redelivery = match (qos, maybe_packet_id) {
                     (QoS::ExactlyOnce, Some(packet_id)) => {
                         let known = session.inbound_unreleased.contains(&packet_id.get());
+                        #[cfg(feature = "verif")]
+                        if known {
+                            crate::verif::probe("qos2_redelivery_suppressed");
+                        }
                         if !known {
                             session.inbound_unreleased.push(packet_id.get());
                         }
@@ -270,6 +278,8 @@ where
                         // in that case remove it from the active subscriptions map.
                         if (subscription.unbounded_send(RxPacket::Publish(publish.clone()))).is_err()
                         {
+                            #[cfg(feature = "verif")]
+                            crate::verif::probe("stream_gone_subscription_removed");
                             utils::linear_search_by_key(
                                 &session.subscriptions,
                                 subscription_identifier,
@@ -319,6 +329,8 @@ where
                 if pubrec.reason as u8 >= 0x80
                     && connection.send_quota != connection.remote_receive_maximum
                 {
+                    #[cfg(feature = "verif")]
+                    crate::verif::probe("failing_pubrec_freed_slot");
                     connection.send_quota += 1;
                 }
 
@@ -406,6 +418,8 @@ where
         connection.disconnection_timestamp = None;
 
         for (_, packet) in session.retrasmit_queue.iter() {
+            #[cfg(feature = "verif")]
+            crate::verif::probe("retransmitted_packet");
             tx.write(packet.as_ref()).await?;
         }
 
@@ -610,6 +624,8 @@ where
 
         if Self::is_reconnect(connection) {
             if Self::session_expired(connection) {
+                #[cfg(feature = "verif")]
+                crate::verif::probe("session_expired_reset");
                 Self::reset_session(session);
             }
 
